@@ -91,6 +91,13 @@ def check_case(case, cell):
     labels.append("pd-exact" if exact else "pd-bounds")
     simplex = np.array(g[3], dtype=float)
     sclass, sdet = simplex_class(simplex, L)
+    if sclass in ("tetra+", "tetra-"):
+        # rows GJK did not write are uninitialised memory and can form a
+        # proper tetrahedron by accident: each row must be a point of A - B
+        for w in simplex:
+            if refdist(Aref, ref(translate(case["B"], w)), scale=L)["lower"] > tol:
+                sclass = "stale-row"
+                break
     labels.append("simplex:" + sclass)
     r = call_lib(epa, simplex, A, B)
     fails = []
@@ -149,7 +156,7 @@ def check_case(case, cell):
     return fails, {"labels": labels, "nontrivial": bool(nt)}
 
 
-BAD_SIMPLEX = ("degenerate", "origin-on-boundary", "origin-outside", "nonfinite")
+BAD_SIMPLEX = ("degenerate", "origin-on-boundary", "origin-outside", "nonfinite", "stale-row")
 
 
 def match_known(f, case, known):
